@@ -26,6 +26,7 @@ import nfc.tag
 import nfc.llcp
 import nfc.llcp.llc
 from symx.envpatch import CLOCK
+from env.recdevice import T1TagEnv
 from env.recdevice import (RecDevice, Trace, Env, UnsupportedEnv, T2TagEnv,
                            T4ATagEnv,
                            ReaderEnv, PeerEnv, SlotEnv, HarnessLimit,
@@ -196,6 +197,8 @@ def make_env(sx, tr, name):
         return T2TagEnv(sx, tr, max_reads=2)
     if name == "t2-3":
         return T2TagEnv(sx, tr, max_reads=3)
+    if name == "t1-stay":
+        return T1TagEnv(sx, tr, max_reads=99)
     if name == "reader-3":
         return ReaderEnv(sx, tr, max_idle=0, max_cmds=3)
     if name == "peer-init-3":
@@ -1539,6 +1542,14 @@ def connect_partitions(tier):
     P.append(("llcp:no-peer", dict(
         modes=["llcp"], env="none", role=None, startup=dict(llcp=["default"]),
         vals={"on-connect": TF, "on-release": ["True"]}, K=K)))
+    # a tag (no peer) is in the field while connect() looks for a peer: it
+    # keeps polling and returns None when terminate() says so - whatever the
+    # discovery responses of that tag look like (a Type 1 Tag has no SEL_RES)
+    for env in ("t1-stay", "t2-stay", "t4a"):
+        for role in (None, "initiator"):
+            P.append(("llcp:tag-in-field:%s:%s" % (env, role), dict(
+                modes=["llcp"], env=env, role=role, startup=dict(llcp=["default"]),
+                vals={"on-connect": TF, "on-release": ["True"]}, K=K)))
     for env in ("peer-init-lto", "peer-target-lto"):
         P.append(("llcp:%s" % env, dict(
             modes=["llcp"], env=env,
